@@ -6,23 +6,41 @@ from ..core import Report, Finding, AnalysisError, VERIF_ROOT
 from ..facts import Facts
 from ..astutil import unparse, dotted, walk_no_nested
 from ..callgraph import CallGraph
+from ..pathwalk import Walker, PathState
+from ..passorder import Pipeline, origins, show as show_value
 from .. import purity
 
 LEVEL = 'other'
 RULES = ['R16.1.module-state', 'R16.2.mutable-default', 'R16.2.function-state', 'R16.4.hash-order', 'R16.5.ambient', 'R16.5.cwd', 'R16.6.eval-sandbox']
 
 
-def reachable(cg, entry):
+def reachable(cg, entry, extra=()):
+    """Functions that may run during a call of `entry`: resolved calls of the call graph (methods are resolved by name over all
+    classes), plus every module-level function that a reachable function merely *mentions* (a pass stored in a list / tuple / dict
+    of passes, handed to a helper, wrapped in a lambda or functools.partial is address-taken, and an over-approximation of the
+    reach is the sound side for effect rules)."""
     seen = set()
-    todo = [entry]
+    mentioned = set()
+    todo = [entry] + list(extra)
+    facts = cg.facts
     while todo:
         q = todo.pop()
         if q in seen or q not in cg.funcs:
             continue
         seen.add(q)
+        local = purity.local_names(cg.funcs[q])[0]
         for n in walk_no_nested(cg.funcs[q]):
             if isinstance(n, ast.Call):
                 todo.extend(cg.callees(q, n))
+            elif isinstance(n, ast.Name) and isinstance(n.ctx, ast.Load) and n.id not in local:
+                if n.id in facts.funcs:
+                    todo.append(n.id)
+                elif n.id in facts.assign_nodes and n.id not in mentioned:
+                    # a module-level table (list / tuple / dict of parsers, passes, ...): the functions it holds may be called
+                    mentioned.add(n.id)
+                    for m in ast.walk(facts.assign_nodes[n.id].value):
+                        if isinstance(m, ast.Name) and m.id in facts.funcs:
+                            todo.append(m.id)
         # nested closures are created inside and called through tables
         for cand, par in cg.parent.items():
             if par == q:
@@ -56,21 +74,55 @@ def run_rules(tree, funcs, emit_for, cg=None):
     sets = {k for k, v in mut.items() if v == 'set'}
     propagate_param_sets(cg, funcs, sets)
     for q, fn in funcs.items():
-        purity.check_function(q, fn, mut, sets, lambda rule, node, msg, q=q: emit_for(q, rule, node, msg))
+        purity.check_function(q, fn, mut, sets, lambda rule, node, msg, q=q: emit_for(q, rule, node, msg), module_tree=tree)
 
 
-def getcwd_allowed(fn, node):
-    """os.getcwd() only on the branch where the input is a source *string* (not an existing path)."""
-    p = getattr(node, '_parent', None)
-    child = node
-    while p is not None and p is not fn:
-        if isinstance(p, ast.If) and any(child is s or child in ast.walk(s) for s in p.orelse):
-            t = unparse(p.test)
-            if 'is_path' in t or 'os.path.exists' in t:
-                return True
-        child = p
-        p = getattr(p, '_parent', None)
-    return False
+EXISTENCE_TESTS = ('os.path.exists', 'os.path.isfile', 'os.path.lexists')
+
+
+_FACTS = {}
+
+
+def _facts_of(fn):
+    root = fn
+    while getattr(root, '_parent', None) is not None:
+        root = root._parent
+    if id(root) not in _FACTS:
+        _FACTS[id(root)] = Facts(root)
+    return _FACTS[id(root)]
+
+
+def getcwd_allowed(fn, node, facts=None):
+    """os.getcwd() is evaluated only on paths where `os.path.exists(<a parameter>)` is known to be false, i.e. where the input is a
+    source *string* and not a file (decided on the enumerated paths of the function: the test may be spelled through a local, negated,
+    or sit in an enclosing / earlier `if` with an early return).  True / False; AnalysisError when the function cannot be walked."""
+    params = {a.arg for a in fn.args.posonlyargs + fn.args.args + fn.args.kwonlyargs}
+    facts = facts or _facts_of(fn)
+    w = Walker(facts)
+    st = PathState()
+    for a in params:
+        st.env[a] = ('name', a)
+    paths = w.run(fn.body, st)
+    needle = ('call', 'os.getcwd', (), ())
+
+    def mentions(v):
+        return v == needle or (isinstance(v, tuple) and any(mentions(x) for x in v))
+    found = False
+    for p in paths:
+        if not any(mentions(e[1:-1]) for e in p.events):
+            continue
+        found = True
+        ok = False
+        for t, pol, _ in p.conds:
+            while t[0] == 'un' and t[1] == 'not':
+                t, pol = t[2], not pol
+            if t[0] == 'call' and t[1] in EXISTENCE_TESTS and len(t[2]) == 1 and t[2][0][0] == 'name' and t[2][0][1] in params and pol is False:
+                ok = True
+        if not ok:
+            return False
+    if not found:
+        raise AnalysisError('os.getcwd() in {} is not on any enumerated path'.format(fn.name))
+    return True
 
 
 def run(repo, tier):
@@ -84,14 +136,20 @@ def run(repo, tier):
                  'must fire on every run.')
     rep.trusted_base = ['CPython ast', 'bbverif.callgraph resolution', 'determinism of CPython and struct']
     cg = CallGraph(facts)
-    reach = reachable(cg, 'assemble')
+    pipe = Pipeline(facts)
+    pass_names = sorted({c.name for _, calls in pipe.all_paths() for c in calls})
+    reach = reachable(cg, 'assemble', pass_names)
+    missing = [n for n in pass_names if n not in reach]
+    if missing:
+        raise AnalysisError('passes of the pipeline are not in the analysed reach: {}'.format(missing))
+    rep.analysed['pipeline passes in the analysed reach'] = len(pass_names)
     rep.analysed['functions reachable from assemble'] = len(reach)
     funcs = {q: cg.funcs[q] for q in sorted(reach)}
     hits = {}
 
     def emit(q, rule, node, msg):
         if rule == 'R16.5.cwd':
-            if getcwd_allowed(cg.funcs[q], node):
+            if getcwd_allowed(cg.funcs[q], node, facts):
                 rep.ok('R16.5.cwd', '{}: os.getcwd() only when the input is a source string'.format(q))
                 return
             msg = 'the working directory is consulted outside the source-string branch: results depend on where the process runs'
@@ -105,17 +163,36 @@ def run(repo, tier):
     for rule in RULES:
         if rule not in hits:
             rep.ok(rule, 'no instance in the {} functions reachable from assemble()'.format(len(funcs)))
-    # assemble: fresh dicts under `is not None` tests
+    # per-call tables: every object that assemble hands to a pass next to the item list is either the caller's own argument
+    # (a parameter whose default is an immutable constant) or an object created inside this very call - never a module-level
+    # object or a default-argument object, which would be shared between calls.  Decided on the abstract values of the pass
+    # arguments (bbverif.passorder), whatever names / helpers / containers assemble routes them through.
     fn = facts.funcs['assemble']
-    for name in ('constants', 'labels'):
-        binds = [n for n in ast.walk(fn) if isinstance(n, ast.Assign) and any(isinstance(t, ast.Name) and t.id == name for t in n.targets)]
-        ok = len(binds) == 1 and isinstance(binds[0].value, ast.IfExp) and isinstance(binds[0].value.orelse, ast.Dict) and not binds[0].value.orelse.keys \
-            and unparse(binds[0].value.body) == name
-        params = {a.arg: d for a, d in zip(fn.args.kwonlyargs, fn.args.kw_defaults)}
-        dflt = params.get(name)
-        ok = ok and isinstance(dflt, ast.Constant) and dflt.value is None
-        rep.check(ok, 'R16.2.fresh', 'assemble: `{}` defaults to None and falls back to a fresh dict'.format(name),
-                  lambda name=name: Finding('R16.2.fresh', 'assemble', binds[0] if binds else fn, 'the fallback for `{}` is not a fresh per-call dict'.format(name), line=fn.lineno))
+    mut = purity.module_level_mutables(repo.asm)
+    tables = {}
+    for compress, calls in pipe.all_paths():
+        for c in pipe.passes(calls):
+            for i, v in list(enumerate(c.args)) + list(c.kwargs.items()):
+                if v[0] not in ('items', 'const', 'func', 'class', 'closure', 'partial', 'builtin'):     # data flowing on / code
+                    tables.setdefault(v, (c, i))
+    n_tables = 0
+    for v, (c, i) in tables.items():
+        n_tables += 1
+        what = 'argument {} of {}'.format(i, c.name)
+        for leaf in origins(v):
+            if leaf[0] == 'ref':
+                rep.ok('R16.2.fresh', '{}: created inside the call'.format(what))
+            elif leaf[0] == 'param':
+                d = pipe.defaults.get(leaf[1])
+                ok = d is None or isinstance(d, ast.Constant)
+                rep.check(ok, 'R16.2.fresh', '{}: the caller\'s `{}` (immutable default)'.format(what, leaf[1]),
+                          lambda leaf=leaf: Finding('R16.2.fresh', 'assemble', fn, 'the default of `{}` is an object shared between calls'.format(leaf[1]), line=fn.lineno))
+            elif leaf[0] == 'module':
+                rep.fail(Finding('R16.2.fresh', 'assemble', c.node, 'the fallback for a per-call table is the module-level object `{}`: it is shared between calls '
+                                 '(and filled by the passes)'.format(leaf[1]), line=getattr(c.node, 'lineno', fn.lineno)), instance=what)
+            else:
+                raise AnalysisError('assemble: origin of {} is not understood: {}'.format(what, show_value(leaf)))
+    rep.analysed['per-call tables traced'] = n_tables
     # module import does not depend on ambient inputs either
     mod_fn = ast.FunctionDef(name='<module>', args=ast.arguments(posonlyargs=[], args=[], kwonlyargs=[], kw_defaults=[], defaults=[]),
                              body=[s for s in repo.asm.body if not isinstance(s, (ast.FunctionDef, ast.ClassDef))], decorator_list=[])
@@ -138,6 +215,8 @@ def run(repo, tier):
         raise AnalysisError('purity rules no longer fire on the positive fixture: {}'.format(missing))
     rep.analysed['rules alive on the positive fixture'] = len(fired)
     rep.sample({'reachable': sorted(reach)[:20], 'fixture_rules_fired': sorted(fired)})
-    rep.floor('functions reachable from assemble', 120)
+    rep.floor('functions reachable from assemble', 40)
+    rep.floor('pipeline passes in the analysed reach', 10)
+    rep.floor('per-call tables traced', 2)
     rep.floor('rules alive on the positive fixture', len(RULES))
     return rep
